@@ -69,7 +69,11 @@ class FakeTransport(Transport):
         if fail:
             raise InjectedFault("injected write fault")
         if self.slow_gate is not None:
-            await self.slow_gate
+            try:
+                await self.slow_gate
+            except BaseException:
+                rec["ok"] = False       # the caller gave up (a timeout of its own): the line was not taken
+                raise
 
 
 _LINE = re.compile(r"\A(-?\d+);(-?\d+);(-?\d+);(-?\d+);(-?\d+);([^\n]*)\n\Z")
